@@ -369,11 +369,51 @@ Proof. split; apply queue_inv_nil. Qed.
 
 (* the conjunct missing from nb_inv: on a non-empty queue maxid has the parity of the queue *)
 Definition maxid_ok (st : nbstate) : Prop :=
-  (put_lead st <> [] -> Z.even (maxPutID st) = true) /\
-  (get_lead st <> [] -> Z.even (maxGetID st) = false).
+  (put_lead st = [] \/ Z.even (maxPutID st) = true) /\
+  (get_lead st = [] \/ Z.even (maxGetID st) = false).
+
+Definition nb_inv_full (st : nbstate) : Prop := nb_inv st /\ maxid_ok st.
 
 Lemma maxid_ok_init : maxid_ok init_state.
-Proof. split; intros H; exfalso; apply H; reflexivity. Qed.
+Proof. split; left; reflexivity. Qed.
+
+Theorem nb_inv_full_init : nb_inv_full init_state.
+Proof. split; [exact nb_inv_init|exact maxid_ok_init]. Qed.
+
+(* wait / cancel never change the max ids and only shrink the lead queues *)
+Lemma maxid_ok_shrink st st' :
+  maxid_ok st -> maxPutID st' = maxPutID st -> maxGetID st' = maxGetID st ->
+  (put_lead st' = [] \/ put_lead st <> []) -> (get_lead st' = [] \/ get_lead st <> []) ->
+  maxid_ok st'.
+Proof.
+  intros (Hp & Hg) Ep Eg Hsp Hsg. unfold maxid_ok. rewrite Ep, Eg. split.
+  - destruct Hsp as [H|H]; [left; exact H|]. destruct Hp as [Hp|Hp]; [contradiction|right; exact Hp].
+  - destruct Hsg as [H|H]; [left; exact H|]. destruct Hg as [Hg|Hg]; [contradiction|right; exact Hg].
+Qed.
+
+Lemma maxid_ok_same_ids st st' :
+  maxid_ok st -> maxPutID st' = maxPutID st -> maxGetID st' = maxGetID st ->
+  (put_lead st = [] -> put_lead st' = []) -> (get_lead st = [] -> get_lead st' = []) ->
+  maxid_ok st'.
+Proof.
+  intros H Ep Eg Hsp Hsg. apply (maxid_ok_shrink st st' H Ep Eg).
+  - destruct (put_lead st) as [|a r]; [left; apply Hsp; reflexivity|right; discriminate].
+  - destruct (get_lead st) as [|a r]; [left; apply Hsg; reflexivity|right; discriminate].
+Qed.
+
+(* nb_inv_full only looks at the queues and the max ids *)
+Lemma nb_inv_full_ext st st' :
+  put_lead st' = put_lead st -> get_lead st' = get_lead st ->
+  put_reqs st' = put_reqs st -> get_reqs st' = get_reqs st ->
+  maxPutID st' = maxPutID st -> maxGetID st' = maxGetID st ->
+  nb_inv_full st -> nb_inv_full st'.
+Proof.
+  intros E1 E2 E3 E4 E5 E6 H. unfold nb_inv_full, nb_inv, maxid_ok in *.
+  rewrite E1, E2, E3, E4, E5, E6. exact H.
+Qed.
+
+Lemma or_nil_imp {A} (l : list A) (P : Prop) : l = [] \/ P -> l <> [] -> P.
+Proof. intros [H|H] Hn; [contradiction|exact H]. Qed.
 
 (* ====================================================================== *)
 (* 5. Q1 queue surgery                                                     *)
@@ -625,17 +665,17 @@ Ltac name_enqueue Eq pl pr :=
   end.
 
 Lemma post_varm_spec st k g start count stride xaddr0 data sw tag :
-  nb_inv st -> maxid_ok st -> post_ok g start count stride ->
+  nb_inv_full st -> post_ok g start count stride ->
   forall st' id rc, post_varm st k g start count stride xaddr0 data sw tag = (st', id, rc) ->
   (st' = st /\ id = NC_REQ_NULL) \/
-  (rc = NC_NOERR /\ 0 <= id /\ Z.even id = k_isput k /\ nb_inv st' /\ maxid_ok st' /\
+  (rc = NC_NOERR /\ 0 <= id /\ Z.even id = k_isput k /\ nb_inv_full st' /\
    exists newl, l_id newl = id /\ l_tag newl = tag /\ l_geom newl = g /\
                 l_stride newl = stride_eff stride /\
                 l_orig newl = [(start, count, match stride with Some t => t | None => ones_like count end)] /\
                 l_to_free newl = false /\ l_nelems newl = zprod count /\
                 posted_into (k_isput k) st st' newl).
 Proof.
-  intros Hinv Hmax Hpost st' id rc Hp. unfold post_varm in Hp.
+  intros (Hinv & Hmax) Hpost st' id rc Hp. unfold post_varm in Hp.
   match type of Hp with (match ?c with true => _ | false => _ end) = _ => destruct c eqn:Ek end.
   { injection Hp as <- <- <-. left. split; reflexivity. }
   cbv zeta in Hp.
@@ -650,8 +690,8 @@ Proof.
     apply zprod_nonneg in Hreq. apply Z.eqb_neq in Enb. nia. }
   destruct Hinv as (Hput & Hget). destruct Hmax as (Hmp & Hmg).
   destruct (k_isput k) eqn:Ekp.
-  - name_enqueue Eq pl pr. injection Hp as <- <- <-.
-    match type of Eq with enqueue _ _ _ _ ?ml ?mr ?n = _ =>
+  - name_enqueue Henq pl pr. injection Hp as <- <- <-.
+    match type of Henq with enqueue _ _ _ _ ?ml ?mr ?n = _ =>
       set (ML := ml) in *; set (MR := mr) in *; set (NN := n) in * end.
     assert (Hmr : forall off lo,
                Forall (fun q => areq_wf (mkareq q (ML off) 0 0)) (MR lo) /\
@@ -670,17 +710,16 @@ Proof.
                               l_nonlead_off (ML off) = off /\ l_nonlead_num (ML off) = NN /\
                               l_to_free (ML off) = false).
     { intros off. split; [reflexivity|]. split; [reflexivity|]. split; reflexivity. }
-    destruct (enqueue_next_inv true _ _ _ _ _ _ _ _ 0 _ _ Hput Hmp eq_refl (Z.le_refl 0) Hn Hml Hmr' Eq)
+    destruct (enqueue_next_inv true _ _ _ _ _ _ _ _ 0 _ _ Hput (or_nil_imp _ _ Hmp) eq_refl (Z.le_refl 0) Hn Hml Hmr' Henq)
       as (Hev & Hid & Hq & kept & shifted & off & El & _ & El').
     split; [reflexivity|]. split; [exact Hid|]. split; [exact Hev|].
-    split; [split; [exact Hq|exact Hget]|].
-    split; [split; [intros _; exact Hev|exact Hmg]|].
+    split; [split; [split; [exact Hq|exact Hget]|split; [right; exact Hev|exact Hmg]]|].
     exists (ML off). split; [reflexivity|]. split; [reflexivity|]. split; [reflexivity|].
     split; [reflexivity|]. split; [reflexivity|]. split; [reflexivity|]. split; [reflexivity|].
     exists kept, shifted. split; [exact El|]. split; [exact El'|].
     split; [reflexivity|]. split; [reflexivity|]. split; reflexivity.
-  - name_enqueue Eq pl pr. injection Hp as <- <- <-.
-    match type of Eq with enqueue _ _ _ _ ?ml ?mr ?n = _ =>
+  - name_enqueue Henq pl pr. injection Hp as <- <- <-.
+    match type of Henq with enqueue _ _ _ _ ?ml ?mr ?n = _ =>
       set (ML := ml) in *; set (MR := mr) in *; set (NN := n) in * end.
     assert (Hmr : forall off lo,
                Forall (fun q => areq_wf (mkareq q (ML off) 0 0)) (MR lo) /\
@@ -699,13 +738,677 @@ Proof.
                               l_nonlead_off (ML off) = off /\ l_nonlead_num (ML off) = NN /\
                               l_to_free (ML off) = false).
     { intros off. split; [reflexivity|]. split; [reflexivity|]. split; reflexivity. }
-    destruct (enqueue_next_inv false _ _ _ _ _ _ _ _ 1 _ _ Hget Hmg eq_refl Z.le_0_1 Hn Hml Hmr' Eq)
+    destruct (enqueue_next_inv false _ _ _ _ _ _ _ _ 1 _ _ Hget (or_nil_imp _ _ Hmg) eq_refl Z.le_0_1 Hn Hml Hmr' Henq)
       as (Hev & Hid & Hq & kept & shifted & off & El & _ & El').
     split; [reflexivity|]. split; [exact Hid|]. split; [exact Hev|].
-    split; [split; [exact Hput|exact Hq]|].
-    split; [split; [exact Hmp|intros _; exact Hev]|].
+    split; [split; [split; [exact Hput|exact Hq]|split; [exact Hmp|right; exact Hev]]|].
     exists (ML off). split; [reflexivity|]. split; [reflexivity|]. split; [reflexivity|].
     split; [reflexivity|]. split; [reflexivity|]. split; [reflexivity|]. split; [reflexivity|].
     exists kept, shifted. split; [exact El|]. split; [exact El'|].
     split; [reflexivity|]. split; [reflexivity|]. split; reflexivity.
 Qed.
+
+Lemma post_varn_spec st k g parts xaddr0 data sw tag :
+  nb_inv_full st -> postn_ok g parts ->
+  forall st' id rc, post_varn st k g parts xaddr0 data sw tag = (st', id, rc) ->
+  (st' = st /\ id = NC_REQ_NULL) \/
+  (rc = NC_NOERR /\ 0 <= id /\ Z.even id = k_isput k /\ nb_inv_full st' /\
+   exists newl, l_id newl = id /\ l_tag newl = tag /\ l_geom newl = g /\ l_stride newl = None /\
+                l_orig newl = map (fun p => (fst p, part_count (fst p) (snd p), ones_like (fst p)))
+                                  (filter (fun p => negb (zprod (part_count (fst p) (snd p)) =? 0)) parts) /\
+                l_to_free newl = false /\
+                posted_into (k_isput k) st st' newl).
+Proof.
+  intros (Hinv & Hmax) Hpost st' id rc Hp. unfold post_varn in Hp.
+  match type of Hp with (match ?c with true => _ | false => _ end) = _ => destruct c eqn:Ek end.
+  { injection Hp as <- <- <-. left. split; reflexivity. }
+  cbv zeta in Hp.
+  match type of Hp with (if ?c then _ else _) = _ => destruct c eqn:Enb end.
+  { injection Hp as <- <- <-. left. split; reflexivity. }
+  match type of Hp with context [bput_alloc ?a ?b ?c ?d] =>
+    destruct (bput_alloc a b c d) as [[[rc0 ab] aidx] xaddr] eqn:Eb end.
+  destruct (negb (rc0 =? NC_NOERR)) eqn:Erc.
+  { injection Hp as <- <- <-. left. split; reflexivity. }
+  right.
+  apply Z.eqb_neq in Enb. pose proof (varn_nreqs_pos g parts Hpost Enb) as Hn.
+  destruct Hinv as (Hput & Hget). destruct Hmax as (Hmp & Hmg).
+  destruct (k_isput k) eqn:Ekp.
+  - name_enqueue Henq pl pr. injection Hp as <- <- <-.
+    match type of Henq with enqueue _ _ _ _ ?ml ?mr ?n = _ =>
+      set (ML := ml) in *; set (MR := mr) in *; set (NN := n) in * end.
+    assert (Hmr' : forall off lo,
+               Forall (fun q => areq_wf (mkareq q (ML off) 0 0)) (MR lo) /\
+               flat_map (fun q => areq_pairs (mkareq q (ML off) 0 0)) (MR lo) = lead_pairs (ML off) /\
+               Forall (fun q => r_lead_off q = lo) (MR lo) /\ Zlen (MR lo) = NN).
+    { intros off lo.
+      exact (post_varn_reqs_ok g parts xaddr lo (ML off) Hpost eq_refl eq_refl eq_refl eq_refl). }
+    assert (Hml : forall off, l_id (ML off) = next_id (Zlen (put_lead st)) (maxPutID st) 0 /\
+                              l_nonlead_off (ML off) = off /\ l_nonlead_num (ML off) = NN /\
+                              l_to_free (ML off) = false).
+    { intros off. split; [reflexivity|]. split; [reflexivity|]. split; reflexivity. }
+    destruct (enqueue_next_inv true _ _ _ _ _ _ _ _ 0 _ _ Hput (or_nil_imp _ _ Hmp) eq_refl (Z.le_refl 0)
+                               Hn Hml Hmr' Henq)
+      as (Hev & Hid & Hq & kept & shifted & off & El & _ & El').
+    split; [reflexivity|]. split; [exact Hid|]. split; [exact Hev|].
+    split; [split; [split; [exact Hq|exact Hget]|split; [right; exact Hev|exact Hmg]]|].
+    exists (ML off). split; [reflexivity|]. split; [reflexivity|]. split; [reflexivity|].
+    split; [reflexivity|]. split; [reflexivity|]. split; [reflexivity|].
+    exists kept, shifted. split; [exact El|]. split; [exact El'|].
+    split; [reflexivity|]. split; [reflexivity|]. split; reflexivity.
+  - name_enqueue Henq pl pr. injection Hp as <- <- <-.
+    match type of Henq with enqueue _ _ _ _ ?ml ?mr ?n = _ =>
+      set (ML := ml) in *; set (MR := mr) in *; set (NN := n) in * end.
+    assert (Hmr' : forall off lo,
+               Forall (fun q => areq_wf (mkareq q (ML off) 0 0)) (MR lo) /\
+               flat_map (fun q => areq_pairs (mkareq q (ML off) 0 0)) (MR lo) = lead_pairs (ML off) /\
+               Forall (fun q => r_lead_off q = lo) (MR lo) /\ Zlen (MR lo) = NN).
+    { intros off lo.
+      exact (post_varn_reqs_ok g parts xaddr lo (ML off) Hpost eq_refl eq_refl eq_refl eq_refl). }
+    assert (Hml : forall off, l_id (ML off) = next_id (Zlen (get_lead st)) (maxGetID st) 1 /\
+                              l_nonlead_off (ML off) = off /\ l_nonlead_num (ML off) = NN /\
+                              l_to_free (ML off) = false).
+    { intros off. split; [reflexivity|]. split; [reflexivity|]. split; reflexivity. }
+    destruct (enqueue_next_inv false _ _ _ _ _ _ _ _ 1 _ _ Hget (or_nil_imp _ _ Hmg) eq_refl Z.le_0_1
+                               Hn Hml Hmr' Henq)
+      as (Hev & Hid & Hq & kept & shifted & off & El & _ & El').
+    split; [reflexivity|]. split; [exact Hid|]. split; [exact Hev|].
+    split; [split; [split; [exact Hput|exact Hq]|split; [exact Hmp|right; exact Hev]]|].
+    exists (ML off). split; [reflexivity|]. split; [reflexivity|]. split; [reflexivity|].
+    split; [reflexivity|]. split; [reflexivity|]. split; [reflexivity|].
+    exists kept, shifted. split; [exact El|]. split; [exact El'|].
+    split; [reflexivity|]. split; [reflexivity|]. split; reflexivity.
+Qed.
+
+(* ---------- corollaries in the form used by the history theorems ---------- *)
+Theorem post_varm_inv st k g start count stride xaddr data sw tag :
+  nb_inv_full st -> post_ok g start count stride ->
+  nb_inv_full (fst (fst (post_varm st k g start count stride xaddr data sw tag))).
+Proof.
+  intros Hi Hp. destruct (post_varm st k g start count stride xaddr data sw tag) as [[st' id] rc] eqn:E.
+  cbn [fst].
+  destruct (post_varm_spec _ _ _ _ _ _ _ _ _ _ Hi Hp _ _ _ E) as [(-> & _)|(_ & _ & _ & H & _)]; assumption.
+Qed.
+
+Theorem post_varn_inv st k g parts xaddr data sw tag :
+  nb_inv_full st -> postn_ok g parts ->
+  nb_inv_full (fst (fst (post_varn st k g parts xaddr data sw tag))).
+Proof.
+  intros Hi Hp. destruct (post_varn st k g parts xaddr data sw tag) as [[st' id] rc] eqn:E.
+  cbn [fst].
+  destruct (post_varn_spec _ _ _ _ _ _ _ _ Hi Hp _ _ _ E) as [(-> & _)|(_ & _ & _ & H & _)]; assumption.
+Qed.
+
+Lemma posted_into_In isput st st' newl :
+  posted_into isput st st' newl ->
+  In newl (if isput then put_lead st' else get_lead st') /\ nreqs st' = nreqs st + 1.
+Proof.
+  intros (kept & shifted & H). unfold nreqs. destruct isput.
+  - destruct H as (E1 & E2 & E3 & _). rewrite E1, E2, E3. split; [apply in_elt|].
+    unfold shift_leads. rewrite !Zlen_app, Proofs_Disk.Zlen_cons, Zlen_map. lia.
+  - destruct H as (E1 & E2 & E3 & _). rewrite E1, E2, E3. split; [apply in_elt|].
+    unfold shift_leads. rewrite !Zlen_app, Proofs_Disk.Zlen_cons, Zlen_map. lia.
+Qed.
+
+Theorem post_varm_id st k g start count stride xaddr data sw tag :
+  nb_inv_full st -> post_ok g start count stride ->
+  let '(st', id, rc) := post_varm st k g start count stride xaddr data sw tag in
+  rc = NC_NOERR -> id <> NC_REQ_NULL ->
+  Z.even id = k_isput k /\
+  exists l, In l (if k_isput k then put_lead st' else get_lead st') /\ l_id l = id /\ l_tag l = tag /\
+            l_orig l = [(start, count, match stride with Some t => t | None => ones_like count end)] /\
+            l_to_free l = false /\ nreqs st' = nreqs st + 1.
+Proof.
+  intros Hi Hp. destruct (post_varm st k g start count stride xaddr data sw tag) as [[st' id] rc] eqn:E.
+  intros Hrc Hid.
+  destruct (post_varm_spec _ _ _ _ _ _ _ _ _ _ Hi Hp _ _ _ E)
+    as [(_ & Hn)|(_ & _ & Hev & _ & l & H1 & H2 & _ & _ & H5 & H6 & _ & H8)]; [contradiction|].
+  split; [exact Hev|]. destruct (posted_into_In _ _ _ _ H8) as (Hin & Hnr).
+  exists l. repeat split; assumption.
+Qed.
+
+Theorem post_varm_null st k g start count stride xaddr data sw tag :
+  nb_inv_full st -> post_ok g start count stride ->
+  let '(st', id, rc) := post_varm st k g start count stride xaddr data sw tag in
+  rc <> NC_NOERR \/ id = NC_REQ_NULL -> st' = st.
+Proof.
+  intros Hi Hp. destruct (post_varm st k g start count stride xaddr data sw tag) as [[st' id] rc] eqn:E.
+  intros Hor.
+  destruct (post_varm_spec _ _ _ _ _ _ _ _ _ _ Hi Hp _ _ _ E) as [(H & _)|(Hrc & Hid & _)]; [exact H|].
+  exfalso. destruct Hor as [H|H]; [contradiction|]. unfold NC_REQ_NULL in H. lia.
+Qed.
+
+Theorem post_varn_id st k g parts xaddr data sw tag :
+  nb_inv_full st -> postn_ok g parts ->
+  let '(st', id, rc) := post_varn st k g parts xaddr data sw tag in
+  rc = NC_NOERR -> id <> NC_REQ_NULL ->
+  Z.even id = k_isput k /\
+  exists l, In l (if k_isput k then put_lead st' else get_lead st') /\ l_id l = id /\ l_tag l = tag /\
+            l_orig l = map (fun p => (fst p, part_count (fst p) (snd p), ones_like (fst p)))
+                           (filter (fun p => negb (zprod (part_count (fst p) (snd p)) =? 0)) parts) /\
+            l_to_free l = false /\ nreqs st' = nreqs st + 1.
+Proof.
+  intros Hi Hp. destruct (post_varn st k g parts xaddr data sw tag) as [[st' id] rc] eqn:E.
+  intros Hrc Hid.
+  destruct (post_varn_spec _ _ _ _ _ _ _ _ Hi Hp _ _ _ E)
+    as [(_ & Hn)|(_ & _ & Hev & _ & l & H1 & H2 & _ & _ & H5 & H6 & H8)]; [contradiction|].
+  split; [exact Hev|]. destruct (posted_into_In _ _ _ _ H8) as (Hin & Hnr).
+  exists l. repeat split; assumption.
+Qed.
+
+Theorem post_varn_null st k g parts xaddr data sw tag :
+  nb_inv_full st -> postn_ok g parts ->
+  let '(st', id, rc) := post_varn st k g parts xaddr data sw tag in
+  rc <> NC_NOERR \/ id = NC_REQ_NULL -> st' = st.
+Proof.
+  intros Hi Hp. destruct (post_varn st k g parts xaddr data sw tag) as [[st' id] rc] eqn:E.
+  intros Hor.
+  destruct (post_varn_spec _ _ _ _ _ _ _ _ Hi Hp _ _ _ E) as [(H & _)|(Hrc & Hid & _)]; [exact H|].
+  exfalso. destruct Hor as [H|H]; [contradiction|]. unfold NC_REQ_NULL in H. lia.
+Qed.
+
+End WithGeometry.
+
+(* ====================================================================== *)
+(* 7. Q3 cancel                                                            *)
+(* ====================================================================== *)
+(* the same pending request, up to its position in the queue *)
+Definition lead_same (l l' : lead) : Prop :=
+  l_id l' = l_id l /\ l_tag l' = l_tag l /\ l_orig l' = l_orig l /\ l_xaddr l' = l_xaddr l /\
+  l_geom l' = l_geom l /\ l_swapbuf l' = l_swapbuf l.
+
+Lemma lead_same_refl l : lead_same l l.
+Proof. repeat split. Qed.
+Lemma lead_same_set_off l x : lead_same l (l_set_off l x).
+Proof. repeat split. Qed.
+Lemma lead_same_trans a b c : lead_same a b -> lead_same b c -> lead_same a c.
+Proof.
+  intros (A1 & A2 & A3 & A4 & A5 & A6) (B1 & B2 & B3 & B4 & B5 & B6).
+  unfold lead_same. rewrite B1, B2, B3, B4, B5, B6. repeat split; assumption.
+Qed.
+
+Lemma In_shift_same n B l : In l B -> exists l', In l' (shift_leads n B) /\ lead_same l l'.
+Proof.
+  intros H. exists (l_set_off l (l_nonlead_off l + n)). split; [|apply lead_same_set_off].
+  unfold shift_leads. apply in_map_iff. exists l. split; [reflexivity|exact H].
+Qed.
+
+(* posting keeps every pending request *)
+Lemma posted_into_frame isput st st' newl :
+  posted_into isput st st' newl ->
+  forall l, In l (put_lead st ++ get_lead st) ->
+  exists l', In l' (put_lead st' ++ get_lead st') /\ lead_same l l'.
+Proof.
+  intros (kept & shifted & H) l Hin. apply in_app_or in Hin. destruct isput.
+  - destruct H as (E1 & E2 & E3 & _). rewrite E2, E3. destruct Hin as [Hin|Hin].
+    + rewrite E1 in Hin. apply in_app_or in Hin. destruct Hin as [Hin|Hin].
+      * exists l. split; [|apply lead_same_refl]. apply in_or_app. left. apply in_or_app. left. exact Hin.
+      * destruct (In_shift_same (l_nonlead_num newl) _ _ Hin) as (l' & Hl' & Hs).
+        exists l'. split; [|exact Hs]. apply in_or_app. left. apply in_or_app. right. right. exact Hl'.
+    + exists l. split; [|apply lead_same_refl]. apply in_or_app. right. exact Hin.
+  - destruct H as (E1 & E2 & E3 & _). rewrite E2, E3. destruct Hin as [Hin|Hin].
+    + exists l. split; [|apply lead_same_refl]. apply in_or_app. left. exact Hin.
+    + rewrite E1 in Hin. apply in_app_or in Hin. destruct Hin as [Hin|Hin].
+      * exists l. split; [|apply lead_same_refl]. apply in_or_app. right. apply in_or_app. left. exact Hin.
+      * destruct (In_shift_same (l_nonlead_num newl) _ _ Hin) as (l' & Hl' & Hs).
+        exists l'. split; [|exact Hs]. apply in_or_app. right. apply in_or_app. right. right. exact Hl'.
+Qed.
+
+Lemma remove_lead_spec : forall leads x leads' f,
+  remove_lead leads x = Some (leads', f) ->
+  exists A B, leads = A ++ f :: B /\ leads' = A ++ shift_leads (- l_nonlead_num f) B /\
+              l_id f = x /\ x <> NC_REQ_NULL.
+Proof.
+  induction leads as [|l r IH]; intros x leads' f H; cbn [remove_lead] in H; [discriminate|].
+  destruct (negb (l_id l =? NC_REQ_NULL) && (l_id l =? x)) eqn:E.
+  - injection H as <- <-. exists [], r. split; [reflexivity|]. split; [|lia].
+    cbn [app]. unfold shift_leads. apply map_ext. intros a. f_equal; lia.
+  - destruct (remove_lead r x) as [[r' f']|] eqn:Er; [|discriminate]. injection H as <- <-.
+    destruct (IH _ _ _ Er) as (A & B & -> & -> & Hid & Hx).
+    exists (l :: A), B. split; [reflexivity|]. split; [reflexivity|]. split; assumption.
+Qed.
+
+Lemma remove_lead_none : forall leads x,
+  remove_lead leads x = None -> x <> NC_REQ_NULL -> ~ In x (map l_id leads).
+Proof.
+  induction leads as [|l r IH]; intros x H Hx; cbn [remove_lead] in H; cbn [map In]; [tauto|].
+  destruct (negb (l_id l =? NC_REQ_NULL) && (l_id l =? x)) eqn:E; [discriminate|].
+  destruct (remove_lead r x) as [[r' f']|] eqn:Er; [discriminate|].
+  intros [Hl|Hr]; [lia|]. exact (IH _ Er Hx Hr).
+Qed.
+
+Theorem remove_inv isput maxid leads reqs x leads' f :
+  queue_inv isput maxid leads reqs -> remove_lead leads x = Some (leads', f) ->
+  queue_inv isput maxid leads' (remove_slice reqs (l_nonlead_off f) (l_nonlead_num f)).
+Proof.
+  intros Hq Hr. apply queue_inv_chunks in Hq. destruct Hq as (Hnd & Hmax & Hch & Hfree).
+  destruct (remove_lead_spec _ _ _ _ Hr) as (A & B & -> & -> & Hid & Hx).
+  apply qchunks_app_elim in Hch. destruct Hch as (ra & rb' & -> & HA & HfB).
+  cbn [qchunks] in HfB. destruct HfB as (b & rest & -> & Hoff & Hb & Hpos & HF & Hc & Hrest).
+  assert (Ers : remove_slice (ra ++ b ++ rest) (l_nonlead_off f) (l_nonlead_num f) = ra ++ bump_reqs (-1) rest).
+  { unfold remove_slice. rewrite zfirstn_app_len by lia. f_equal.
+    rewrite app_assoc, zskipn_app_len by (rewrite Zlen_app; lia).
+    unfold bump_reqs. apply map_ext. intros a. f_equal; lia. }
+  rewrite Ers. apply queue_inv_chunks. split; [|split; [|split]].
+  - rewrite map_app in *. cbn [map] in Hnd. apply NoDup_remove_1 in Hnd.
+    unfold shift_leads. rewrite map_set_off_id. exact Hnd.
+  - apply Forall_app in Hmax. destruct Hmax as (H1 & H2). apply Forall_app. split; [exact H1|].
+    apply Forall_set_off; [intros l y Hl; exact Hl|]. exact (Forall_inv_tail H2).
+  - apply qchunks_app_intro; [exact HA|].
+    apply (qchunks_shift isput (- l_nonlead_num f) (-1)) in Hrest. revert Hrest.
+    apply qchunks_eq; rewrite ?Proofs_Disk.Zlen_cons; lia.
+  - apply Forall_app in Hfree. destruct Hfree as (H1 & H2). apply Forall_app. split; [exact H1|].
+    apply Forall_set_off; [intros l y Hl; exact Hl|]. exact (Forall_inv_tail H2).
+Qed.
+
+Lemma remove_frame leads x leads' f l :
+  remove_lead leads x = Some (leads', f) -> In l leads -> l_id l <> x ->
+  exists l', In l' leads' /\ lead_same l l'.
+Proof.
+  intros Hr Hin Hne. destruct (remove_lead_spec _ _ _ _ Hr) as (A & B & -> & -> & Hid & Hx).
+  apply in_app_or in Hin. destruct Hin as [Hin|[Hin|Hin]].
+  - exists l. split; [apply in_or_app; left; exact Hin|apply lead_same_refl].
+  - subst l. contradiction.
+  - destruct (In_shift_same (- l_nonlead_num f) _ _ Hin) as (l' & Hl' & Hs).
+    exists l'. split; [apply in_or_app; right; exact Hl'|exact Hs].
+Qed.
+
+(* ids after a removal: the removed id is gone, nothing is added *)
+Lemma remove_ids leads x leads' f :
+  NoDup (map l_id leads) -> remove_lead leads x = Some (leads', f) ->
+  ~ In x (map l_id leads') /\ incl (map l_id leads') (map l_id leads).
+Proof.
+  intros Hnd Hr. destruct (remove_lead_spec _ _ _ _ Hr) as (A & B & -> & -> & Hid & Hx).
+  rewrite !map_app in *. cbn [map] in *. unfold shift_leads. rewrite map_set_off_id.
+  rewrite Hid in Hnd. split; [exact (NoDup_remove_2 _ _ _ Hnd)|].
+  intros y Hy. apply in_app_or in Hy. apply in_or_app. destruct Hy as [Hy|Hy]; [left; exact Hy|right; right; exact Hy].
+Qed.
+
+Lemma remove_nonempty leads x leads' f : remove_lead leads x = Some (leads', f) -> leads <> [].
+Proof. destruct leads; [discriminate|discriminate]. Qed.
+
+(* the state component of cancel_ids *)
+Fixpoint cancel_st (st : nbstate) (ids : list Z) : nbstate :=
+  match ids with
+  | [] => st
+  | x :: r =>
+      if x =? NC_REQ_NULL then cancel_st st r
+      else if Z.land x 1 =? 1 then
+        match remove_lead (get_lead st) x with
+        | Some (gl, l) =>
+            cancel_st (set_get st gl (remove_slice (get_reqs st) (l_nonlead_off l) (l_nonlead_num l))) r
+        | None => cancel_st st r
+        end
+      else
+        match remove_lead (put_lead st) x with
+        | Some (pl, l) =>
+            cancel_st (set_abuf (set_put st pl (remove_slice (put_reqs st) (l_nonlead_off l) (l_nonlead_num l)))
+                                (match st_abuf st with
+                                 | Some a => if 0 <=? l_abuf_index l then Some (abuf_release a (l_abuf_index l)) else Some a
+                                 | None => None end)) r
+        | None => cancel_st st r
+        end
+  end.
+
+Definition cst (r : nbstate * list Z * list Z * Z * list event) : nbstate := fst (fst (fst (fst r))).
+
+Lemma cancel_ids_st : forall ids st i stat rc ev, cst (cancel_ids st ids i stat rc ev) = cancel_st st ids.
+Proof.
+  induction ids as [|x r IH]; intros st i stat rc ev; cbn [cancel_ids cancel_st]; [reflexivity|].
+  destruct (x =? NC_REQ_NULL).
+  { match goal with |- context [cancel_ids ?s r ?j ?t ?c ?e] =>
+      specialize (IH s j t c e); destruct (cancel_ids s r j t c e) as [[[[s' a] b] c'] d] end.
+    exact IH. }
+  destruct (Z.land x 1 =? 1).
+  - destruct (remove_lead (get_lead st) x) as [[gl l]|].
+    + match goal with |- context [cancel_ids ?s r ?j ?t ?c ?e] =>
+        specialize (IH s j t c e); destruct (cancel_ids s r j t c e) as [[[[s' a] b] c'] d] end.
+      exact IH.
+    + match goal with |- context [cancel_ids ?s r ?j ?t ?c ?e] =>
+        specialize (IH s j t c e); destruct (cancel_ids s r j t c e) as [[[[s' a] b] c'] d] end.
+      exact IH.
+  - destruct (remove_lead (put_lead st) x) as [[pl l]|].
+    + match goal with |- context [cancel_ids ?s r ?j ?t ?c ?e] =>
+        specialize (IH s j t c e); destruct (cancel_ids s r j t c e) as [[[[s' a] b] c'] d] end.
+      exact IH.
+    + match goal with |- context [cancel_ids ?s r ?j ?t ?c ?e] =>
+        specialize (IH s j t c e); destruct (cancel_ids s r j t c e) as [[[[s' a] b] c'] d] end.
+      exact IH.
+Qed.
+
+(* one removal step on either queue *)
+Lemma step_get_inv st x gl l :
+  nb_inv_full st -> remove_lead (get_lead st) x = Some (gl, l) ->
+  nb_inv_full (set_get st gl (remove_slice (get_reqs st) (l_nonlead_off l) (l_nonlead_num l))).
+Proof.
+  intros ((Hp & Hg) & (Hmp & Hmg)) Hr. split; split; cbn [set_get put_lead put_reqs get_lead get_reqs maxPutID maxGetID].
+  - exact Hp.
+  - exact (remove_inv _ _ _ _ _ _ _ Hg Hr).
+  - exact Hmp.
+  - right. exact (or_nil_imp _ _ Hmg (remove_nonempty _ _ _ _ Hr)).
+Qed.
+
+Lemma step_put_inv st x pl l ab :
+  nb_inv_full st -> remove_lead (put_lead st) x = Some (pl, l) ->
+  nb_inv_full (set_abuf (set_put st pl (remove_slice (put_reqs st) (l_nonlead_off l) (l_nonlead_num l))) ab).
+Proof.
+  intros ((Hp & Hg) & (Hmp & Hmg)) Hr.
+  split; split; cbn [set_abuf set_put put_lead put_reqs get_lead get_reqs maxPutID maxGetID].
+  - exact (remove_inv _ _ _ _ _ _ _ Hp Hr).
+  - exact Hg.
+  - right. exact (or_nil_imp _ _ Hmp (remove_nonempty _ _ _ _ Hr)).
+  - exact Hmg.
+Qed.
+
+Lemma cancel_st_inv : forall ids st, nb_inv_full st -> nb_inv_full (cancel_st st ids).
+Proof.
+  induction ids as [|x r IH]; intros st H; cbn [cancel_st]; [exact H|].
+  destruct (x =? NC_REQ_NULL); [apply IH; exact H|].
+  destruct (Z.land x 1 =? 1).
+  - destruct (remove_lead (get_lead st) x) as [[gl l]|] eqn:Er; [|apply IH; exact H].
+    apply IH. exact (step_get_inv _ _ _ _ H Er).
+  - destruct (remove_lead (put_lead st) x) as [[pl l]|] eqn:Er; [|apply IH; exact H].
+    apply IH. exact (step_put_inv _ _ _ _ _ H Er).
+Qed.
+
+Definition all_leads (st : nbstate) : list lead := put_lead st ++ get_lead st.
+
+Lemma cancel_st_frame : forall ids st l,
+  In l (all_leads st) -> ~ In (l_id l) ids ->
+  exists l', In l' (all_leads (cancel_st st ids)) /\ lead_same l l'.
+Proof.
+  induction ids as [|x r IH]; intros st l Hin Hni; cbn [cancel_st].
+  { exists l. split; [exact Hin|apply lead_same_refl]. }
+  assert (Hne : l_id l <> x) by (intros E; apply Hni; left; symmetry; exact E).
+  assert (Hnr : ~ In (l_id l) r) by (intros E; apply Hni; right; exact E).
+  destruct (x =? NC_REQ_NULL); [apply IH; assumption|].
+  destruct (Z.land x 1 =? 1).
+  - destruct (remove_lead (get_lead st) x) as [[gl f]|] eqn:Er; [|apply IH; assumption].
+    assert (H1 : exists l1, In l1 (all_leads (set_get st gl (remove_slice (get_reqs st) (l_nonlead_off f) (l_nonlead_num f)))) /\
+                            lead_same l l1).
+    { unfold all_leads in *. cbn [set_get put_lead get_lead]. apply in_app_or in Hin. destruct Hin as [Hin|Hin].
+      - exists l. split; [apply in_or_app; left; exact Hin|apply lead_same_refl].
+      - destruct (remove_frame _ _ _ _ _ Er Hin Hne) as (l1 & Hl1 & Hs).
+        exists l1. split; [apply in_or_app; right; exact Hl1|exact Hs]. }
+    destruct H1 as (l1 & Hl1 & Hs1).
+    destruct (IH _ l1 Hl1) as (l' & Hl' & Hs').
+    { destruct Hs1 as (E & _). rewrite E. exact Hnr. }
+    exists l'. split; [exact Hl'|exact (lead_same_trans _ _ _ Hs1 Hs')].
+  - destruct (remove_lead (put_lead st) x) as [[pl f]|] eqn:Er; [|apply IH; assumption].
+    match goal with |- context [cancel_st ?s r] => set (st1 := s) end.
+    assert (H1 : exists l1, In l1 (all_leads st1) /\ lead_same l l1).
+    { unfold all_leads in *. unfold st1. cbn [set_abuf set_put put_lead get_lead].
+      apply in_app_or in Hin. destruct Hin as [Hin|Hin].
+      - destruct (remove_frame _ _ _ _ _ Er Hin Hne) as (l1 & Hl1 & Hs).
+        exists l1. split; [apply in_or_app; left; exact Hl1|exact Hs].
+      - exists l. split; [apply in_or_app; right; exact Hin|apply lead_same_refl]. }
+    destruct H1 as (l1 & Hl1 & Hs1).
+    destruct (IH _ l1 Hl1) as (l' & Hl' & Hs').
+    { destruct Hs1 as (E & _). rewrite E. exact Hnr. }
+    exists l'. split; [exact Hl'|exact (lead_same_trans _ _ _ Hs1 Hs')].
+Qed.
+
+Lemma land1_odd x : (Z.land x 1 =? 1) = Z.odd x.
+Proof.
+  change (Z.land x 1) with (Z.land x (Z.ones 1)). rewrite Z.land_ones by lia.
+  change (2 ^ 1) with 2. rewrite Zmod_odd. destruct (Z.odd x); reflexivity.
+Qed.
+
+Lemma queue_ids_parity isput maxid leads reqs y :
+  queue_inv isput maxid leads reqs -> In y (map l_id leads) -> Z.even y = isput.
+Proof.
+  intros (_ & _ & _ & Hwf & _) Hin. apply in_map_iff in Hin. destruct Hin as (l & <- & Hl).
+  rewrite Forall_forall in Hwf. destruct (Hwf l Hl) as (He & _). exact He.
+Qed.
+
+(* cancel never adds an id *)
+Lemma cancel_st_ids_incl : forall ids st, nb_inv_full st ->
+  incl (map l_id (all_leads (cancel_st st ids))) (map l_id (all_leads st)).
+Proof.
+  induction ids as [|x r IH]; intros st H; cbn [cancel_st]; [apply incl_refl|].
+  destruct (x =? NC_REQ_NULL); [apply IH; exact H|].
+  destruct (Z.land x 1 =? 1).
+  - destruct (remove_lead (get_lead st) x) as [[gl f]|] eqn:Er; [|apply IH; exact H].
+    eapply incl_tran; [apply IH; exact (step_get_inv _ _ _ _ H Er)|].
+    destruct H as ((_ & Hg) & _). destruct Hg as (Hnd & _).
+    destruct (remove_ids _ _ _ _ Hnd Er) as (_ & Hincl).
+    unfold all_leads. cbn [set_get put_lead get_lead]. rewrite !map_app.
+    apply incl_app; [apply incl_appl, incl_refl|apply incl_appr; exact Hincl].
+  - destruct (remove_lead (put_lead st) x) as [[pl f]|] eqn:Er; [|apply IH; exact H].
+    eapply incl_tran; [apply IH; exact (step_put_inv _ _ _ _ _ H Er)|].
+    destruct H as ((Hp & _) & _). destruct Hp as (Hnd & _).
+    destruct (remove_ids _ _ _ _ Hnd Er) as (_ & Hincl).
+    unfold all_leads. cbn [set_abuf set_put put_lead get_lead]. rewrite !map_app.
+    apply incl_app; [apply incl_appl; exact Hincl|apply incl_appr, incl_refl].
+Qed.
+
+Lemma cancel_st_removed : forall ids st, nb_inv_full st ->
+  forall y, 0 <= y -> In y ids -> ~ In y (map l_id (all_leads (cancel_st st ids))).
+Proof.
+  induction ids as [|x r IH]; intros st H y Hy Hin; [destruct Hin|].
+  destruct (Z.eq_dec x y) as [E|E].
+  - subst x. clear Hin. cbn [cancel_st].
+    destruct (y =? NC_REQ_NULL) eqn:En; [unfold NC_REQ_NULL in En; lia|].
+    assert (Hyn : y <> NC_REQ_NULL) by lia.
+    pose proof H as ((Hp & Hg) & _).
+    rewrite land1_odd. destruct (Z.odd y) eqn:Eo.
+    + assert (Hnp : ~ In y (map l_id (put_lead st))).
+      { intros Hc. apply (queue_ids_parity _ _ _ _ _ Hp) in Hc. rewrite <- Z.negb_odd, Eo in Hc. discriminate. }
+      destruct (remove_lead (get_lead st) y) as [[gl f]|] eqn:Er.
+      * intros Hc. apply (cancel_st_ids_incl r _ (step_get_inv _ _ _ _ H Er)) in Hc.
+        unfold all_leads in Hc. cbn [set_get put_lead get_lead] in Hc. rewrite map_app in Hc.
+        apply in_app_or in Hc. destruct Hc as [Hc|Hc]; [exact (Hnp Hc)|].
+        destruct Hg as (Hnd & _). destruct (remove_ids _ _ _ _ Hnd Er) as (Hno & _). exact (Hno Hc).
+      * intros Hc. apply (cancel_st_ids_incl r _ H) in Hc. unfold all_leads in Hc. rewrite map_app in Hc.
+        apply in_app_or in Hc. destruct Hc as [Hc|Hc]; [exact (Hnp Hc)|].
+        exact (remove_lead_none _ _ Er Hyn Hc).
+    + assert (Hng : ~ In y (map l_id (get_lead st))).
+      { intros Hc. apply (queue_ids_parity _ _ _ _ _ Hg) in Hc. rewrite <- Z.negb_odd, Eo in Hc. discriminate. }
+      destruct (remove_lead (put_lead st) y) as [[pl f]|] eqn:Er.
+      * intros Hc. apply (cancel_st_ids_incl r _ (step_put_inv _ _ _ _ _ H Er)) in Hc.
+        unfold all_leads in Hc. cbn [set_abuf set_put put_lead get_lead] in Hc. rewrite map_app in Hc.
+        apply in_app_or in Hc. destruct Hc as [Hc|Hc]; [|exact (Hng Hc)].
+        destruct Hp as (Hnd & _). destruct (remove_ids _ _ _ _ Hnd Er) as (Hno & _). exact (Hno Hc).
+      * intros Hc. apply (cancel_st_ids_incl r _ H) in Hc. unfold all_leads in Hc. rewrite map_app in Hc.
+        apply in_app_or in Hc. destruct Hc as [Hc|Hc]; [|exact (Hng Hc)].
+        exact (remove_lead_none _ _ Er Hyn Hc).
+  - assert (Hr : In y r) by (destruct Hin as [Hin|Hin]; [contradiction|exact Hin]).
+    cbn [cancel_st].
+    destruct (x =? NC_REQ_NULL); [apply IH; assumption|].
+    destruct (Z.land x 1 =? 1).
+    + destruct (remove_lead (get_lead st) x) as [[gl f]|] eqn:Er; [|apply IH; assumption].
+      apply IH; [exact (step_get_inv _ _ _ _ H Er)|exact Hy|exact Hr].
+    + destruct (remove_lead (put_lead st) x) as [[pl f]|] eqn:Er; [|apply IH; assumption].
+      apply IH; [exact (step_put_inv _ _ _ _ _ H Er)|exact Hy|exact Hr].
+Qed.
+
+(* ---------- cancel itself ---------- *)
+Lemma cancel_pos_queues st n ids stat0 :
+  0 < n ->
+  put_lead (wr_st (cancel st n ids stat0)) = put_lead (cancel_st st ids) /\
+  get_lead (wr_st (cancel st n ids stat0)) = get_lead (cancel_st st ids) /\
+  put_reqs (wr_st (cancel st n ids stat0)) = put_reqs (cancel_st st ids) /\
+  get_reqs (wr_st (cancel st n ids stat0)) = get_reqs (cancel_st st ids) /\
+  maxPutID (wr_st (cancel st n ids stat0)) = maxPutID (cancel_st st ids) /\
+  maxGetID (wr_st (cancel st n ids stat0)) = maxGetID (cancel_st st ids).
+Proof.
+  intros Hn. unfold cancel.
+  destruct (n =? 0) eqn:E0; [lia|].
+  destruct (n <? NC_PUT_REQ_ALL) eqn:E1; [unfold NC_PUT_REQ_ALL in E1; lia|].
+  destruct (n <? 0) eqn:E2; [lia|].
+  pose proof (cancel_ids_st ids st 0 stat0 NC_NOERR []) as Hc.
+  destruct (cancel_ids st ids 0 stat0 NC_NOERR []) as [[[[st1 ids'] stat'] rc] ev].
+  unfold cst in Hc. cbn [fst] in Hc. subst st1. cbn [wr_st]. repeat split.
+Qed.
+
+Lemma cancel_zero st ids stat0 : wr_st (cancel st 0 ids stat0) = st.
+Proof. reflexivity. Qed.
+
+Theorem cancel_inv st n ids stat0 : nb_inv_full st -> nb_inv_full (wr_st (cancel st n ids stat0)).
+Proof.
+  intros H. destruct (Z.ltb_spec 0 n) as [Hn|Hn].
+  - destruct (cancel_pos_queues st n ids stat0 Hn) as (E1 & E2 & E3 & E4 & E5 & E6).
+    exact (nb_inv_full_ext _ _ E1 E2 E3 E4 E5 E6 (cancel_st_inv ids st H)).
+  - unfold cancel.
+    destruct (n =? 0) eqn:E0; [exact H|].
+    destruct (n <? NC_PUT_REQ_ALL) eqn:E1; [exact H|].
+    destruct (n <? 0) eqn:E2; [|lia].
+    cbv zeta. destruct H as ((Hp & Hg) & (Hmp & Hmg)).
+    destruct ((n =? NC_GET_REQ_ALL) || (n =? NC_REQ_ALL));
+      destruct ((n =? NC_PUT_REQ_ALL) || (n =? NC_REQ_ALL)); cbn [wr_st];
+      (split; split; cbn [set_abuf set_put set_get put_lead put_reqs get_lead get_reqs maxPutID maxGetID];
+       first [apply queue_inv_nil | assumption | left; reflexivity]).
+Qed.
+
+(* nb_inv alone IS preserved by cancel (no id is created) *)
+Theorem cancel_maxid_shrink st n ids stat0 :
+  maxPutID (wr_st (cancel st n ids stat0)) = maxPutID st /\
+  maxGetID (wr_st (cancel st n ids stat0)) = maxGetID st.
+Proof.
+  assert (Hc : forall ids st, maxPutID (cancel_st st ids) = maxPutID st /\ maxGetID (cancel_st st ids) = maxGetID st).
+  { clear. induction ids as [|x r IH]; intros st; cbn [cancel_st]; [split; reflexivity|].
+    destruct (x =? NC_REQ_NULL); [apply IH|].
+    destruct (Z.land x 1 =? 1).
+    - destruct (remove_lead (get_lead st) x) as [[gl l]|]; [|apply IH].
+      destruct (IH (set_get st gl (remove_slice (get_reqs st) (l_nonlead_off l) (l_nonlead_num l)))) as (A & B).
+      rewrite A, B. split; reflexivity.
+    - destruct (remove_lead (put_lead st) x) as [[pl l]|]; [|apply IH].
+      match goal with |- context [cancel_st ?s r] => destruct (IH s) as (A & B) end.
+      rewrite A, B. split; reflexivity. }
+  destruct (Z.ltb_spec 0 n) as [Hn|Hn].
+  - destruct (cancel_pos_queues st n ids stat0 Hn) as (_ & _ & _ & _ & E5 & E6).
+    rewrite E5, E6. apply Hc.
+  - unfold cancel.
+    destruct (n =? 0) eqn:E0; [split; reflexivity|].
+    destruct (n <? NC_PUT_REQ_ALL) eqn:E1; [split; reflexivity|].
+    destruct (n <? 0) eqn:E2; [|lia].
+    cbv zeta.
+    destruct ((n =? NC_GET_REQ_ALL) || (n =? NC_REQ_ALL));
+      destruct ((n =? NC_PUT_REQ_ALL) || (n =? NC_REQ_ALL)); cbn [wr_st]; split; reflexivity.
+Qed.
+
+(* requests not named stay pending, unchanged up to their position in the queue *)
+Theorem cancel_ids_frame st n ids stat0 :
+  0 <= n ->
+  forall l, In l (put_lead st ++ get_lead st) -> ~ In (l_id l) ids ->
+  exists l', In l' (put_lead (wr_st (cancel st n ids stat0)) ++ get_lead (wr_st (cancel st n ids stat0))) /\
+             l_id l' = l_id l /\ l_tag l' = l_tag l /\ l_orig l' = l_orig l /\ l_xaddr l' = l_xaddr l /\
+             l_geom l' = l_geom l /\ l_swapbuf l' = l_swapbuf l.
+Proof.
+  intros Hn l Hin Hni. destruct (Z.eq_dec n 0) as [E|E].
+  - subst n. rewrite cancel_zero. exists l. split; [exact Hin|]. repeat split.
+  - destruct (cancel_pos_queues st n ids stat0 ltac:(lia)) as (E1 & E2 & _). rewrite E1, E2.
+    exact (cancel_st_frame ids st l Hin Hni).
+Qed.
+
+(* requests named are gone *)
+Theorem cancel_ids_removed st n ids stat0 :
+  nb_inv_full st -> 0 < n ->
+  forall l, In l (put_lead st ++ get_lead st) -> In (l_id l) ids ->
+  ~ In (l_id l) (map l_id (put_lead (wr_st (cancel st n ids stat0)) ++ get_lead (wr_st (cancel st n ids stat0)))).
+Proof.
+  intros H Hn l Hin Hid.
+  destruct (cancel_pos_queues st n ids stat0 Hn) as (E1 & E2 & _). rewrite E1, E2.
+  apply (cancel_st_removed ids st H); [|exact Hid].
+  destruct H as ((Hp & Hg) & _). apply in_app_or in Hin. destruct Hin as [Hin|Hin].
+  - destruct Hp as (_ & _ & _ & Hwf & _). rewrite Forall_forall in Hwf. destruct (Hwf l Hin) as (_ & H0 & _). exact H0.
+  - destruct Hg as (_ & _ & _ & Hwf & _). rewrite Forall_forall in Hwf. destruct (Hwf l Hin) as (_ & H0 & _). exact H0.
+Qed.
+
+(* ====================================================================== *)
+(* 8. Examples: the invariant and the hypotheses are satisfiable            *)
+(* ====================================================================== *)
+(* for fully evaluated (vm_compute) closed propositions *)
+Ltac conc_false :=
+  match goal with
+  | H : False |- _ => destruct H
+  | H : ?a = ?a -> False |- _ => apply H; reflexivity
+  | H : _ = _ |- _ => discriminate H
+  | H : _ \/ _ |- _ => solve [destruct H; conc_false]
+  end.
+Ltac conc_leaf :=
+  lazymatch goal with
+  | |- True => exact I
+  | |- False => conc_false
+  | |- _ = _ => first [reflexivity | exfalso; conc_false]
+  | |- _ \/ _ => first [solve [left; conc_leaf] | solve [right; conc_leaf] | exfalso; conc_false]
+  | |- _ => exfalso; conc_false
+  end.
+Ltac conc :=
+  repeat lazymatch goal with
+         | |- _ /\ _ => split
+         | |- Forall _ _ => constructor; cbv beta iota
+         | |- NoDup _ => constructor; cbn [In]
+         | |- ~ _ => intro
+         | |- _ -> _ => intro
+         end;
+  conc_leaf.
+
+Definition ex_g1 : geom := mkgeom 2048 8 [0;3;4] 200 3.     (* record variable *)
+Definition ex_g2 : geom := mkgeom 1024 4 [4;5;6] 0 0.       (* fixed-size variable, begins earlier *)
+Definition ex_parts : list (list Z * option (list Z)) :=
+  [([0;0;0], Some [1;3;4]); ([5;1;0], None); ([2;0;0], Some [0;3;4])].
+
+(* put of 2 records of g1 (2 non-lead requests) *)
+Definition ex_st1 : nbstate := fst (fst (post_varm init_state KIput ex_g1 [1;0;0] [2;3;4] None 5000 [] false 11)).
+(* strided put on g2: inserted BEFORE the first lead (g_begin 1024 < 2048), which is shifted *)
+Definition ex_st2 : nbstate :=
+  fst (fst (post_varm ex_st1 KIput ex_g2 [0;0;0] [2;5;6] (Some [2;1;1]) 9000 [] false 12)).
+(* varn get on g1 with an empty part *)
+Definition ex_st3 : nbstate := fst (fst (post_varn ex_st2 KIget ex_g1 ex_parts 20000 [] false 13)).
+
+Example ex_post_ok :
+  post_ok ex_g1 [1;0;0] [2;3;4] None /\ post_ok ex_g2 [0;0;0] [2;5;6] (Some [2;1;1]) /\ postn_ok ex_g1 ex_parts.
+Proof. vm_compute. conc. Qed.
+
+Example ex_queue_shape :
+  map l_id (put_lead ex_st3) = [2; 0] /\ map l_nonlead_off (put_lead ex_st3) = [0; 1] /\
+  map l_nonlead_num (put_lead ex_st3) = [1; 2] /\ map r_lead_off (put_reqs ex_st3) = [0; 1; 1] /\
+  map l_id (get_lead ex_st3) = [1] /\ map l_nonlead_num (get_lead ex_st3) = [2] /\
+  maxPutID ex_st3 = 2 /\ maxGetID ex_st3 = 1.
+Proof. vm_compute. conc. Qed.
+
+Example ex_inv1 : nb_inv_full ex_st1.
+Proof. vm_compute. conc. Qed.
+Example ex_inv2 : nb_inv_full ex_st2.
+Proof. vm_compute. conc. Qed.
+Example ex_inv3 : nb_inv_full ex_st3.
+Proof. vm_compute. conc. Qed.
+
+(* the conclusion of the geometry hypothesis on the record-split instance of ex_st1 *)
+Example ex_geometry :
+  let l := hd dummy_lead (put_lead ex_st1) in
+  let reqs := rec_split 0 [1;0;0] [2;3;4] 1 2 12 5000 8 in
+  Forall (fun q => areq_wf (mkareq q l 0 0)) reqs /\
+  flat_map (fun q => areq_pairs (mkareq q l 0 0)) reqs = lead_pairs l /\
+  Forall (fun q => r_lead_off q = 0) reqs /\ Zlen reqs = 2.
+Proof. vm_compute. conc. Qed.
+
+Example ex_cancel :
+  map l_id (all_leads (wr_st (cancel ex_st3 2 [2; 1] [0; 0]))) = [0] /\
+  nb_inv_full (wr_st (cancel ex_st3 2 [2; 1] [0; 0])).
+Proof. vm_compute. conc. Qed.
+
+(* nb_inv WITHOUT maxid_ok is not preserved by a post: the state below satisfies nb_inv (put queue
+   [id 0], maxPutID = 1), the next put gets the odd id 3 *)
+Definition ex_bad : nbstate := set_maxids ex_st1 1 0.
+Example nb_inv_post_counterexample :
+  nb_inv ex_bad /\ post_ok ex_g2 [0;0;0] [2;5;6] None /\
+  ~ nb_inv (fst (fst (post_varm ex_bad KIput ex_g2 [0;0;0] [2;5;6] None 9000 [] false 12))).
+Proof.
+  split; [vm_compute; conc|]. split; [vm_compute; conc|].
+  intros ((_ & _ & _ & Hwf & _) & _). apply Forall_inv in Hwf. destruct Hwf as (He & _).
+  vm_compute in He. discriminate He.
+Qed.
+
+Print Assumptions nb_inv_full_init.
+Print Assumptions enqueue_inv.
+Print Assumptions split_last_le_app.
+Print Assumptions post_varm_inv.
+Print Assumptions post_varn_inv.
+Print Assumptions post_varm_id.
+Print Assumptions post_varm_null.
+Print Assumptions post_varn_id.
+Print Assumptions post_varn_null.
+Print Assumptions cancel_inv.
+Print Assumptions cancel_ids_frame.
+Print Assumptions cancel_ids_removed.
